@@ -182,6 +182,18 @@ class GwWorld:
             orig_on_write = peer.on_write
 
             def on_write(data, _orig=orig_on_write):
+                stall = self.tapes.next("link.stall", 0)
+                if stall:
+                    # the peer stops reading for a while: the bytes are accepted, drain() has to wait
+                    self.faults["link_stall"] += 1
+                    peer.slow_consumer = True
+                    peer.transport.set_write_buffer_limits(high=1, low=0)
+
+                    def resume():
+                        peer.slow_consumer = False
+                        peer.consume()
+
+                    self.loop.call_later(stall, resume)
                 r = _orig(data)
                 # every write() of the transport carries exactly one encoded line
                 for raw in data.split(b"\n")[:-1]:
@@ -215,6 +227,8 @@ class GwWorld:
             self.loop.run_until_idle(50)
             if not t.done() or t.exception() is not None:
                 raise RuntimeError(f"could not enter the gateway context: {t.exception() if t.done() else 'hang'}")
+        elif cfg.get("default_config") and cfg.get("metric", True):
+            self.gateway = Gateway(self.transport)  # built without a config: metric by default
         else:
             self.gateway = Gateway(self.transport, Config(metric=cfg.get("metric", True)))
         if cfg.get("pin"):
@@ -361,6 +375,49 @@ class GwWorld:
         if t.exception() is not None:
             return type(t.exception()).__name__
         return None
+
+    def restart(self, read_fault: bool = False) -> list[str]:
+        """Process restart in persistence mode: leave the context (healthy disk), build a NEW Gateway object on the
+        same file, optionally let the first entry fail with a read error on the device, then enter for good.
+        Returns the exception class names seen at the (failed) entries."""
+        assert self.disk is not None
+        self.relisten()
+        self.disk.fault_on.clear()
+        self.disk.faults.clear()
+        seen = []
+
+        def run(coro):
+            t = self.loop.create_task(coro)
+            self.loop.run_until_idle(50)
+            if not t.done():
+                t.cancel()
+                self.loop.run_until_idle(0)
+                return "hang"
+            return type(t.exception()).__name__ if t.exception() is not None else None
+
+        seen.append(run(self.gateway.__aexit__(None, None, None)))
+        self.log("app", "process-restart", read_fault)
+        self.gateway = Gateway(self.transport, Config(metric=self.cfg.get("metric", True),
+                                                      persistence_file="/sim/persistence.json"))
+        if read_fault:
+            self.disk.fault_on["read"] = ["EIO"]
+            self.faults["load_read_fault"] += 1
+            seen.append(run(self.gateway.__aenter__()))
+            self.disk.fault_on.clear()
+            # the application retries with a fresh object, as after any failed start
+            self.gateway = Gateway(self.transport, Config(metric=self.cfg.get("metric", True),
+                                                          persistence_file="/sim/persistence.json"))
+        seen.append(run(self.gateway.__aenter__()))
+        if self.cfg.get("pin"):
+            self.gateway.protocol_version = self.cfg["pin"]
+        self._wmark = len(self.writes)
+        return seen
+
+    def other_gateway_goes_imperial(self) -> None:
+        """Another Gateway object in the same process (built without a config, like this one) switches units."""
+        other = Gateway(SimTransport(self))
+        other.config.metric = False
+        self.log("app", "other-gateway-imperial")
 
     def close(self) -> None:
         _p14.time = self._old_time
